@@ -177,6 +177,36 @@ func checkC12(e *Engine, r *Report) {
 		}
 	})
 
+	r.Rule("R6", "EFFECT", "the method dispatcher itself (customPrecompiledContractMethodExecutorImpl.Execute, run for read-only and state-changing methods alike) reaches no store write, event or log apart from the executor it dispatches to — a bookkeeping write placed there happens inside STATICCALL and for every view", 1, func() {
+		disp := e.Fn(pkgCpcKeeper, "customPrecompiledContractMethodExecutorImpl.Execute")
+		var hits []EffectHit
+		n := 0
+		for _, c := range callsIn(disp, true, func(ssa.CallInstruction) bool { return true }) {
+			cc := c.Common()
+			if _, isB := cc.Value.(*ssa.Builtin); isB {
+				continue
+			}
+			if cc.IsInvoke() && cc.Method.Name() == "Execute" {
+				continue // the dispatch to the executor: judged per executor by R2/R3
+			}
+			n++
+			for _, callee := range calleesAt(ee, c.Parent(), c) {
+				if k := ee.sinkKind(callee); k != "" {
+					hits = append(hits, EffectHit{Kind: k, Sink: callee})
+					continue
+				}
+				hits = append(hits, ee.Reach(callee, EffectOpts{MaxHits: 1})...)
+			}
+		}
+		key := "x/cpc/keeper.customPrecompiledContractMethodExecutorImpl.Execute › dispatcher writes nothing"
+		if len(hits) == 0 && n > 0 {
+			r.OK(key, e.Pos(disp.Pos()), itoa(n)+" calls besides the dispatch, none reaches an effect sink")
+		} else {
+			d, p := describeHits(hits)
+			r.Bad(key, e.Pos(disp.Pos()), "the dispatcher, which also runs for read-only methods and inside STATICCALL, can reach: "+d, p...)
+		}
+	})
+
 	r.Rule("R3", "EFFECT+CONST", "every executor that can reach an effect sink declares ReadOnly() == false (constant) and RequireGas() is a constant > 0; RequireGas of every non-read-only executor is a non-zero constant", 10, func() {
 		for _, x := range xs {
 			ro, roConst := constResult(x.ReadOnly, 2)
